@@ -6,7 +6,7 @@ From V.model Require Import Base RelLex RelParse RelAcc RelGrammar RelGrammarAll
 From V.model Require Import RelEdit RelEditSpec RelEditTree RelLiveAll RelLiveAllParsed.
 From V.proofs Require Import BaseP RelEditP RelEditStP RelEditHistP RelEditTreeP RelEditReplaceP RelEditParsedP RelEditBuildP RelEditParsedAllP.
 From V.proofs Require Import RelGrammarAllAccP RelGrammarAllParseP.
-From V.proofs Require Import RelLiveAllP RelLiveAllStepP RelLiveAllWfP RelLiveAllNormP RelLiveAllHistP.
+From V.proofs Require Import RelLiveAllP RelLiveAllStepP RelLiveAllWfP RelLiveAllNormP RelLiveAllHistP RelSepsP RelLiveAllSepsP.
 
 (* ------------------------------------------------------------------ what a readable operand text gives *)
 Lemma place_in e post : forall pre w, exists w', In (w', e) (place w pre e post).
@@ -376,4 +376,69 @@ Proof.
   rewrite <- (lrel_tree_of r (p_last x) Hr). rewrite relrec_of_lrel.
   - rewrite lrel_content_of. unfold rel_ops, lrel_of, arel_readable. cbn [l_ver]. destruct (a_ver r); reflexivity.
   - unfold rel_acc_ok, lrel_of. cbn [l_qual l_ver]. unfold arel_accok in Hc1. destruct (a_qual r), (a_ver r); exact Hc1.
+Qed.
+
+(* ------------------------------------------------------------------ separators *)
+Theorem a_pop_slots b o l l' : lwf b l = true -> a_pop o l = Some l' ->
+  tree_slots (ltree l') = psstep (tree_slots (ltree l)) o.
+Proof.
+  intros Hw H. destruct o; cbn [a_pop psstep] in *.
+  - injection H as <-. unfold a_push. rewrite (insert_slots_l b l _ _ Hw). unfold s_insert, tree_slots.
+    rewrite entry_slot_none; [reflexivity|exact (shape_ltree b l Hw)|].
+    unfold ltree. cbn [children]. rewrite (nth_index_map rt is_entry is_re) by apply is_entry_rt. apply nthi_beyond. lia.
+  - injection H as <-. apply (insert_slots_l b l i _ Hw).
+  - unfold a_replace in H. destruct (nth_index is_re i l) as [ci|] eqn:E; [|discriminate]. injection H as <-.
+    destruct (nth_index_re_split _ _ _ E) as (pre & e0 & post & -> & <- & _). apply (slots_replace_re _ _ e0). apply nth_error_app_len.
+  - unfold a_on_entry in H. destruct (nth_entry l i) as [[ci e]|] eqn:E; [|discriminate]. injection H as <-.
+    apply (slots_replace_re _ _ e). now apply (nth_error_entry l i).
+  - destruct (nth_entry l i) as [[ci e]|] eqn:E; [|discriminate]. destruct (j <? n_rels e); [|discriminate]. injection H as <-.
+    apply (slots_replace_re _ _ e). now apply (nth_error_entry l i).
+Qed.
+Theorem g_op_slots b o l l' : lwf b l = true -> g_op o l = Some l' ->
+  tree_slots (ltree l') = gsstep (fst (lcontent l)) (tree_slots (ltree l)) o.
+Proof. destruct o as [o|o]; cbn [g_op gsstep]; [apply a_op_slots|apply a_pop_slots]. Qed.
+
+Theorem g_history_seps b ops : forall l st, lwf b l = true -> forallb goperands_ok ops = true ->
+  gsteps_in_range (fst (lcontent l)) ops = true -> holds st (ltree l) ->
+  exists l' st', g_ops ops l = Some l' /\
+                 run_ops fixed (gcompile_all ops) st = Ok st' /\ holds st' (ltree l') /\
+                 lwf b l' = true /\
+                 lcontent l' = (fold_left gxstep ops (fst (lcontent l)), snd (lcontent l)) /\
+                 field_shape (ltree l') = true /\
+                 tree_slots (ltree l') = gslots_after ops (fst (lcontent l)) (tree_slots (ltree l)).
+Proof.
+  induction ops as [|o rest IH]; intros l st H Ho Hr Hst.
+  - exists l, st. cbn [g_ops gcompile_all flat_map run_ops fold_left]. split; [reflexivity|]. split; [reflexivity|]. split; [exact Hst|]. split; [exact H|].
+    split; [now destruct (lcontent l)|]. split; [now apply (shape_ltree b)|reflexivity].
+  - cbn [forallb gsteps_in_range] in *. andb_hyps.
+    destruct (g_step b o l st) as (l1 & st1 & Ha & R1 & Hst1 & Hw1 & Hc1); auto.
+    pose proof (g_op_slots b o l l1 H Ha) as Hs1.
+    destruct (IH l1 st1) as (l' & st' & Ha' & R' & Hst' & Hw' & Hc' & Hsh' & Hs'); auto.
+    { rewrite Hc1. cbn [fst]. assumption. }
+    exists l', st'. cbn [g_ops gcompile_all flat_map fold_left]. rewrite Ha.
+    split; [exact Ha'|]. split; [eapply run_ops_app; [exact R1|exact R']|]. split; [exact Hst'|]. split; [exact Hw'|].
+    split; [rewrite Hc', Hc1; reflexivity|]. split; [exact Hsh'|].
+    rewrite Hs', Hs1, Hc1. reflexivity.
+Qed.
+
+(* C11 in full (texts as written), operands of all kinds, with the separators *)
+Theorem g_history_full_seps (s : str) (t0 : rtree) (f0 : lfield) (ops : list gop) :
+  parse_relaxed s true = Ok (t0, 0) -> structure t0 = Ok f0 ->
+  gsteps_in_range f0 ops = true -> forallb goperands_ok ops = true ->
+  exists st', run_ops fixed (gcompile_all ops) (start_state t0) = Ok st' /\
+  exists t', root_tree st' = Ok t' /\
+    structure t' = Ok (fold_left gxstep ops f0) /\
+    substvar_texts t' = substvar_texts t0 /\
+    field_shape t' = true /\ tree_slots t' = gslots_after ops f0 (tree_slots t0) /\
+    exists t'', parse_relaxed (text t') true = Ok (t'', 0) /\
+                structure t'' = Ok (fold_left gxstep ops f0).
+Proof.
+  intros Hp Hs Hr Ho.
+  destruct (start_layout true s t0 f0 Hp Hs) as (l0 & <- & Hw & <-).
+  destruct (g_history_seps true ops l0 (start_state (ltree l0)) Hw Ho Hr (holds_start _)) as (l' & st' & Ha & R & Hst' & Hw' & Hc' & Hsh' & Hsl').
+  exists st'. split; [exact R|]. destruct (holds_root_tree _ _ Hst') as [RT _]. exists (ltree l'). split; [exact RT|].
+  destruct (structure_live true l' Hw') as [S1 S2]. destruct (structure_live true l0 Hw) as [_ S0].
+  rewrite Hc' in S1, S2. cbn [fst snd] in S1, S2. split; [exact S1|]. split; [now rewrite S2, S0|].
+  split; [exact Hsh'|]. split; [exact Hsl'|].
+  destruct (live_reread true l' Hw') as (t'' & P & _ & S'' & _). exists t''. split; [exact P|]. rewrite S'', Hc'. reflexivity.
 Qed.
